@@ -18,10 +18,11 @@
 #define IMG "/vmem/c17.img"
 #define BTAG 200
 
-enum { S_H, S_HSYNC, S_V, S_SD, S_GR, S_AN, S_HSPEC, S_VATTR, S_SDCHUNK, S_GRPAL, S_HNEWREF, S_HPROMOTE, S_NSESS };
+enum { S_H, S_HSYNC, S_V, S_SD, S_GR, S_AN, S_HSPEC, S_VATTR, S_SDCHUNK, S_GRPAL, S_HNEWREF, S_HPROMOTE, S_HUSER, S_NSESS };
 static const char *sessname[] = {"H-elements", "H-elements+midsync", "Vdata+Vgroup", "new-SDS", "new-GR-image", "annotations",
                                  "H-linked+compressed-elements", "Vdata+Vgroup-with-attributes", "new-chunked+unlimited-SDS", "new-GR-image+palette+attribute",
-                                 "H-elements-under-Hnewref-numbers", "H-new-appendable-element-promoted-after-Hsync"};
+                                 "H-elements-under-Hnewref-numbers", "H-new-appendable-element-promoted-after-Hsync",
+                                 "H-elements-under-user-defined-tags"};
 
 /* ------------------------------------------------------------ flush bookkeeping */
 #define MAXSEQ 512
@@ -37,6 +38,11 @@ static char          seq_name[MAXSEQ][24];
     } while (0)
 
 /* ------------------------------------------------------------ base files */
+#define NUSERBASE 4
+static const uint16 USERBASE[NUSERBASE][2] = {{0x8005, 1}, {0x8005, 2}, {0x9100, 2}, {0xB0F0, 5}};
+/* what the user-tag session adds: the same numbers with bit 0x4000 set (different tags, so different objects), and others */
+#define NUSERNEW 6
+static const uint16 USERNEW[NUSERNEW][2] = {{0xC005, 2}, {0xF0F0, 5}, {0xD100, 2}, {0x8006, 1}, {0xC005, 1}, {0xEABC, 7}};
 /* nbase plain elements; mixed!=0 adds a Vdata in a Vgroup, an SDS with attribute, a GR image and annotations */
 static int
 build_base(int ndds, int nbase, int mixed)
@@ -64,6 +70,14 @@ build_base(int ndds, int nbase, int mixed)
         uint8 d[4] = {1, 2, 3, 4};
         if (Hputelement(fid, 322, 65535, d, 4) != 4)
             return -1;
+    }
+    if (mixed == 4) {
+        /* elements under user-defined tags (0x8000 and above; bit 0x4000 has no meaning there) */
+        for (int k = 0; k < NUSERBASE; k++) {
+            uint8 d[4] = {(uint8)(0x90 + k), 2, 3, 4};
+            if (Hputelement(fid, USERBASE[k][0], USERBASE[k][1], d, 4) != 4)
+                return -1;
+        }
     }
     if (mixed == 2) {
         /* aliases (descriptors without data of their own) until a new descriptor block has been started: that block is then
@@ -164,6 +178,16 @@ base_digest(const char *path, int nbase, int mixed, char *why, size_t nwhy)
         }
         h = mc_hash(h, d, 4);
     }
+    if (mixed == 4)
+        for (int k = 0; k < NUSERBASE; k++) {
+            uint8 d[8] = {0};
+            if (Hlength(fid, USERBASE[k][0], USERBASE[k][1]) != 4 || Hgetelement(fid, USERBASE[k][0], USERBASE[k][1], d) != 4) {
+                snprintf(why, nwhy, "element (%u,%u) unreadable", USERBASE[k][0], USERBASE[k][1]);
+                Hclose(fid);
+                return 0;
+            }
+            h = mc_hash(h, d, 4);
+        }
     if (mixed == 1) {
         Vstart(fid);
         int32 vsref = VSfind(fid, "basevd");
@@ -313,6 +337,20 @@ run_session(int sess, int nnew)
             API("Hendaccess", 0);
             if (Hendaccess(aid) == FAIL)
                 return -1;
+            API("Hclose", 1);
+            return Hclose(fid);
+        }
+        case S_HUSER: {
+            API("Hopen", 0);
+            int32 fid = Hopen(PATH, OPENMODE[g_mode], 0);
+            if (fid == FAIL)
+                return -1;
+            for (int i = 0; i < nnew; i++) {
+                API("Hputelement", 0);
+                /* as long as the old elements, so that nothing but the tag tells the new from the old */
+                if (Hputelement(fid, USERNEW[i % NUSERNEW][0], (uint16)(USERNEW[i % NUSERNEW][1] + 10 * (i / NUSERNEW)), d, 4) != 4)
+                    return -1;
+            }
             API("Hclose", 1);
             return Hclose(fid);
         }
@@ -661,7 +699,7 @@ run_case(long idx, void *ctx)
     (void)ctx;
     case_t *c      = &cases[idx];
     int     cfg[6] = {c->ndds, c->nbase, c->mixed, c->sess, c->nnew, c->mode};
-    mc_set_config(cfg, 6, "ndds=%d base=%d elements%s session=%s x%d open=%s", c->ndds, c->nbase, c->mixed == 1 ? "+Vdata/Vgroup/AN/GR/SDS" : c->mixed == 2 ? "+aliases so that a descriptor block ends the file" : c->mixed == 3 ? " created in descending order +ref 65535 in use" : "", sessname[c->sess],
+    mc_set_config(cfg, 6, "ndds=%d base=%d elements%s session=%s x%d open=%s", c->ndds, c->nbase, c->mixed == 1 ? "+Vdata/Vgroup/AN/GR/SDS" : c->mixed == 2 ? "+aliases so that a descriptor block ends the file" : c->mixed == 3 ? " created in descending order +ref 65535 in use" : c->mixed == 4 ? " +elements under user-defined tags" : "", sessname[c->sess],
                   c->nnew, openmode_name[c->mode]);
     mc_set_case("base(ndds=%d,n=%d,mixed=%d) + %s x%d, opened with %s", c->ndds, c->nbase, c->mixed, sessname[c->sess], c->nnew, openmode_name[c->mode]);
     g_mode = c->mode;
@@ -734,7 +772,7 @@ run_case(long idx, void *ctx)
     mc_count("sessions", 1);
     mc_count("log_writes", nlog);
     /* every prefix */
-    int  clause2  = c->sess == S_H || c->sess == S_HSYNC || c->sess == S_V || c->sess == S_HSPEC || c->sess == S_VATTR || c->sess == S_HNEWREF || c->sess == S_HPROMOTE;
+    int  clause2  = c->sess == S_H || c->sess == S_HSYNC || c->sess == S_V || c->sess == S_HSPEC || c->sess == S_VATTR || c->sess == S_HNEWREF || c->sess == S_HPROMOTE || c->sess == S_HUSER;
     long nprefix  = 0;
     vfs_copy(BASECOPY, IMG);
     vfile *img = vfs_lookup(IMG);
@@ -825,7 +863,7 @@ C17_main(const char *tier, const char *replay)
         int ndds = ndds_l[ni];
         int nb[6] = {1, ndds - 2, ndds - 1, ndds, 2 * ndds - 1, 2 * ndds + 1};
         for (int bi = 0; bi < 6; bi++)
-            for (int mixed = 0; mixed <= 3; mixed++)
+            for (int mixed = 0; mixed <= 4; mixed++)
                 for (int sess = 0; sess < S_NSESS; sess++) {
                     int nn[3] = {1, 3, ndds + 2};
                     for (int k = 0; k < 3; k++) {
@@ -838,6 +876,8 @@ C17_main(const char *tier, const char *replay)
                         if (mixed >= 2 && (sess == S_SD || sess == S_GR || sess == S_SDCHUNK || sess == S_GRPAL || bi == 5))
                             continue;
                         if (mixed == 3 && !(sess == S_H || sess == S_HNEWREF || sess == S_V || sess == S_HPROMOTE))
+                            continue;
+                        if ((mixed == 4) != (sess == S_HUSER))
                             continue;
                         /* SD sessions open through SDstart(DFACC_RDWR) only */
                         int nmodes = (sess == S_SD || sess == S_SDCHUNK) ? 1 : 3;
